@@ -1,4 +1,4 @@
-CONSTANTS IdPool = {a, b, c} LruCap = 3 MaxBatch = 3 MaxLists = 3 NoDedup = FALSE
+CONSTANTS IdPool = {a, b, c} LruCap = 3 MaxBatch = 3 MaxLists = 3 NoDedup = FALSE ForgetOnFailure = FALSE
 SPECIFICATION Spec
 CHECK_DEADLOCK FALSE
 INVARIANTS AtMostOnce OneWorker
